@@ -11,7 +11,8 @@ from anytree.exporter import MermaidExporter
 
 from .. import forest, refs, shapes, strategies
 from ..core import Violation
-from .c12 import NAME, NODE_CLASSES, TOKEN, esc, expected_structure, special_names
+from . import c06
+from .c12 import NAME, NODE_CLASSES, TOKEN, aborted_iterations, esc, expected_structure, special_names, tripwired
 
 PROP_ID = "C13"
 LEVEL = "exploration"
@@ -62,16 +63,18 @@ def _once(case, acc, tree, labels):
     if "edge" in spec:
         edgefunc = lambda p, c: spec["edge"][index_of[id(c)] % len(spec["edge"])]  # noqa: E731
         kwargs["edgefunc"] = edgefunc
+    _yes, _no = c06.TRUTH_STYLES[case.get("truth", 0) % 4]  # predicates are judged by truth value only
     if case["stop"]:
-        kwargs["stop"] = lambda n: id(n) in stop_ids
+        kwargs["stop"] = lambda n: _yes if id(n) in stop_ids else _no
     if case["hide"]:
-        kwargs["filter_"] = lambda n: id(n) not in hide_ids
+        kwargs["filter_"] = lambda n: _yes if id(n) not in hide_ids else _no
     if maxlevel is not None:
         kwargs["maxlevel"] = maxlevel
     for key in ("graph", "name", "options", "indent"):
         if key in case:
             kwargs[key] = case[key]
-    exporter = MermaidExporter(start, **kwargs)
+    trip = {"left": None}
+    exporter = MermaidExporter(start, **tripwired(kwargs, trip))
     ctx = "start=%s stop=%s hide=%s maxlevel=%r shape=%s names=%r" % (case["start"], case["stop"], case["hide"], maxlevel, case["shape"], names)
     indent = " " * case.get("indent", 0)
     header = "%s %s" % (case.get("graph", "graph"), case.get("name", "TD"))
@@ -119,6 +122,7 @@ def _once(case, acc, tree, labels):
     declared, edges, ident = verify(lines, {}, "first iteration")
     if list(exporter) != lines:
         raise Violation("re-iteration", "%s: second iteration differs (identifiers must be stable)" % ctx)
+    aborted_iterations(exporter, trip, lines, ctx, acc, (0, case.get("abort_at", 2), len(lines)))
     if declared:
         # interleaved iterations of the same exporter
         it1 = iter(exporter)
@@ -191,7 +195,7 @@ def _enum_cases(max_nodes, index, count):
             for stop in shapes.subsets(sub):
                 for hide in shapes.subsets(sub):
                     for maxlevel in [None] + list(range(0, height + 3)):
-                        yield {"shape": forest.to_list(shape), "names": names, "start": start, "stop": stop, "hide": hide, "maxlevel": maxlevel, "indent": k % 3, "cls": ("Node", "EqNode", "Node", "FalsyNode", "LenNode")[k % 5]}
+                        yield {"shape": forest.to_list(shape), "names": names, "start": start, "stop": stop, "hide": hide, "maxlevel": maxlevel, "truth": k, "indent": k % 3, "cls": ("Node", "EqNode", "Node", "FalsyNode", "LenNode")[k % 5]}
 
 
 @st.composite
@@ -207,6 +211,7 @@ def random_cases(draw):
         "stop": draw(strategies.subsets_of(size, max_size=3)),
         "hide": draw(strategies.subsets_of(size, max_size=4)),
         "maxlevel": draw(st.one_of(st.none(), st.integers(0, 6))),
+        "truth": draw(st.integers(0, 3)),
         "to_file": draw(st.integers(0, 9)) == 0,
         "mutations": draw(strategies.tree_mutations(max_ops=2, rename_values=NAME)),
         "cls": draw(st.sampled_from(["Node", "Node", "EqNode", "FalsyNode", "LenNode"])),
